@@ -16,6 +16,9 @@ def g1v(v):
     return next(iter(v)) if v is not TOP and v is not None and len(v) == 1 else None
 
 
+from rules import libtab
+
+
 class BlastHooks(QHooks):
     """blast() over every sequence of up to 4 lines (empty / starting with "." / other; terminated or not) and a
     limit: the bytes written, as a sequence of tokens, against the documented encoder"""
@@ -295,6 +298,138 @@ class QuitHooks(TableHooks):
         return [Outcome(ret=fs(0)), Outcome(ret=fs(-1))]
 
 
+class PopupHooks(libtab.SAConc, QHooks):
+    """qmail-popup's USER / PASS / APOP handlers run one after the other on concrete arguments: what is handed to the checkpassword program"""
+    pipefd = 3          # the descriptor pipe() hands out for its read end
+
+    def __init__(self):
+        self.end = None
+
+    def tracked_global(self, path):
+        return True
+
+    def precise_arith(self, path):
+        return True
+
+    def ev(self, E, e):
+        E.set('$ev', fs(tuple(libtab._one(E.get('$ev')) or ()) + (e,)))
+
+    def _reply(self, E, x, args):
+        self.ev(E, ('reply', x.callee))
+        return [Outcome(ret=TOP)]
+
+    prim_err_syntax = prim_err_wantuser = prim_okay = prim_err_authoriz = _reply
+
+    def prim_pipe(self, E, x, args):
+        p = libtab._one(args[0])
+        from qv.esp import ptr_add
+        return [Outcome(ret=fs(0), sets={p[1]: fs(self.pipefd), ptr_add(p, 1)[1]: fs(self.pipefd + 1)})]
+
+    def prim_fork(self, E, x, args):
+        return [Outcome(ret=fs(77))]
+
+    def prim_substdio_fdbuf(self, E, x, args):
+        return [Outcome(ret=TOP, sets={'$upfd': args[2], '$upobj': args[0]})]
+
+    def _up(self, E, x, args, data):
+        if args[0] != E.get('$upobj') or data is None:
+            raise AnalysisBroken('qmail-popup doanddie: an output with undetermined contents or destination')
+        self.ev(E, ('up', data))
+        return [Outcome(ret=fs(0))]
+
+    def prim_substdio_put(self, E, x, args):
+        n = libtab._one(args[2])
+        return self._up(E, x, args, self.mem(E, libtab._one(args[1]), n) if isinstance(n, int) and 0 <= n < 200 else None)
+
+    prim_substdio_bput = prim_substdio_putflush = prim_substdio_put
+
+    def prim_substdio_puts(self, E, x, args):
+        return self._up(E, x, args, self.cstring(E, libtab._one(args[1])))
+
+    prim_substdio_bputs = prim_substdio_putsflush = prim_substdio_puts
+
+    def prim_substdio_flush(self, E, x, args):
+        self.ev(E, ('flush',))
+        return [Outcome(ret=fs(0))]
+
+    def prim_close(self, E, x, args):
+        return [Outcome(ret=fs(0))]
+
+    def prim_byte_zero(self, E, x, args):
+        return [Outcome(ret=TOP)]
+
+    def prim_wait_pid(self, E, x, args):
+        self.end = (tuple(libtab._one(E.get('$ev')) or ()), E.trace.list())
+        return 'noreturn'
+
+    def _die(self, E, x, args):
+        return 'noreturn'
+
+    prim_die_nomem = prim_die_pipe = prim_die_fork = prim_die_write = prim_die = _die
+
+
+def popup_sites(db, rep):
+    prog = db.program('qmail-popup')
+    u = 'qmail-popup.c'
+    hs = {'user': prog.fn('pop3_user', u), 'pass': prog.fn('pop3_pass', u), 'apop': prog.fn('pop3_apop', u)}
+    TAIL = b'<12.34@' + b'pop.example' + b'>\0'
+    scen = [([('user', b'alice'), ('pass', b'secret')], b'alice\0secret\0' + TAIL, 'USER then PASS'),
+            ([('pass', b'secret')], None, 'PASS without USER'),
+            ([('user', b'alice'), ('user', b''), ('pass', b'secret')], b'alice\0secret\0' + TAIL, 'a refused (empty) USER between USER and PASS'),
+            ([('user', b'alice'), ('pass', b'')], None, 'empty PASS'),
+            ([('user', b'alice'), ('user', b'bob'), ('pass', b'x y')], b'bob\0x y\0' + TAIL, 'a second USER replaces the first'),
+            ([('user', b''), ('pass', b'secret')], None, 'only a refused USER'),
+            ([('apop', b'carol 0123abcd')], b'carol\0' + b'0123abcd\0' + TAIL, 'APOP name digest'),
+            ([('apop', b'carol')], None, 'APOP without a digest'),
+            ([('user', b'alice'), ('pass', b'secret')], None, 'the pipe to the checkpassword program does not get descriptor 3')]
+    bad = {}
+    for cmds, want, what in scen:
+        store = {'G:seenuser': fs(0), 'G:username.len': fs(0), 'G:hostname': fs(('&', 'HOST[0]'))}
+        store.update(libtab.conc_string_cells('HOST', b'pop.example'))
+        store.update(libtab.conc_string_cells('G:unique', b'12.34@'))
+        handed = None
+        evs = []
+        tr = []
+        for k, (cmd, arg) in enumerate(cmds):
+            fn = hs[cmd]
+            H = PopupHooks()
+            if 'descriptor 3' in what:
+                H.pipefd = 5
+            ends = []
+            H.on_return = lambda E, f, v, ends=ends, fn=fn: ends.append(dict(E.store)) if f.name == fn.name else None
+            eng = Engine(db, prog, H, max_states=60000)
+            st = dict(store)
+            st['%s::%s' % (eng.frame_id(fn), fn.params[0])] = fs(('&', 'ARG%d[0]' % k))
+            st.update(libtab.conc_string_cells('ARG%d' % k, arg))
+            st.pop('$ev', None)
+            eng.run(fn, st)
+            rep.count_states(eng.states, eng.transitions)
+            if H.end is not None:
+                handed = b''.join(e[1] for e in H.end[0] if e[0] == 'up')
+                flushed = any(e[0] == 'flush' for e in H.end[0])
+                tr = H.end[1]
+                if not flushed:
+                    bad.setdefault('checkpassword-protocol-order', ('%s: the credentials are written and never flushed to descriptor %s' % (what, 3), tr))
+                break
+            if len(ends) == 0 and H.pipefd != 3:
+                break           # the process ended without a hand-over
+            if len(ends) != 1:
+                raise AnalysisBroken('qmail-popup %s: %d ends for a concrete argument' % (fn.name, len(ends)))
+            store = {k_: v_ for k_, v_ in ends[0].items() if '::' not in k_}
+            evs.append([e for e in (libtab._one(ends[0].get('$ev')) or ())])
+        if handed != want:
+            key = 'PASS-needs-USER' if (want is None and cmds[-1][0] == 'pass' and not any(c == 'user' and a for c, a in cmds)) else 'checkpassword-protocol-order'
+            if 'descriptor 3' in what:
+                key = 'pipe-read-end-is-descriptor-3'
+            if want is not None and handed is not None and handed.count(b'\0') == want.count(b'\0') and handed != want and len(cmds) > 2:
+                key = 'credentials-are-those-of-the-accepted-commands'
+            bad.setdefault(key, ('%s (%s): the checkpassword program is handed %r; documented %r (user NUL password NUL <unique+host> NUL)' % (what, ', '.join('%s %r' % (c, a.decode()) for c, a in cmds), handed, want), tr))
+    out = {}
+    for k in ('checkpassword-protocol-order', 'PASS-needs-USER', 'credentials-are-those-of-the-accepted-commands', 'pipe-read-end-is-descriptor-3'):
+        out[k] = (k not in bad, u, bad[k][0] if k in bad else '%d command sequences' % len(scen), bad[k][1] if k in bad else [])
+    return out
+
+
 def run(ctx):
     db, rep = ctx.db, ctx.report
     prog = db.program('qmail-pop3d')
@@ -454,16 +589,7 @@ def run(ctx):
             r = row['v']
             cmds[r[0].get('v') if r[0].get('k') == 'str' else '<other>'] = r[1].get('v', '')[2:] if r[1].get('k') == 'fn' else None
     r5.check(set(cmds) == {'user', 'pass', 'apop', 'quit', 'noop', '<other>'} and cmds.get('<other>') == 'err_authoriz', 'pre-authentication-command-table', 'qmail-popup.c', 'table %s' % cmds)
-    pp = db.fn('qmail-popup.c', 'pop3_pass')
-    dd = pp.calls('doanddie')
-    r5.check(bool(dd) and any(branch_zero_test(c, t, lambda v: v.path() == 'G:seenuser') == 'nonzero' for c, t in pp.guards(dd[0]) or []) and
-             dd[0].args[0].path() == 'G:username.s', 'PASS-needs-USER', 'qmail-popup.c:pop3_pass', '')
-    da = db.fn('qmail-popup.c', 'doanddie')
-    seq = []
-    for c in da.calls(('substdio_put', 'substdio_puts')):
-        seq.append(c.args[1].string if c.args[1].string is not None else c.args[1].src())
-    r5.check(seq == ['user', 'pass', '<', 'unique', 'hostname', '>'], 'checkpassword-protocol-order', 'qmail-popup.c:doanddie', 'written: %s' % seq)
-    p3 = any(c.strip().k == 'bin' and c.strip().op == '!=' and c.strip().args[1].const == 3 and t is False for c, t in da.guards(da.calls('fork')[0]) or []) if da.calls('fork') else False
-    r5.check(p3, 'pipe-read-end-is-descriptor-3', 'qmail-popup.c:doanddie', '')
+    for inst, v in sorted(popup_sites(db, rep).items()):
+        r5.check(v[0], inst, v[1], v[2], v[3])
     r5.expect_min(4)
     rep.assume('sizes and ids versus the files, and session-level equivalence with RFC 1939, are not decided', 'line-level abstraction of blast: a line is empty / starts with "." / starts with another byte')
